@@ -1,6 +1,6 @@
 #!/bin/bash
 # usage: seed_confirm.sh CNN   -> writes /tmp/seed_CNN/confirm.json
-ID=$1; D=/tmp/seed_$ID; R=$D/repo
+ID=$1; D=/tmp/${SEEDP:-seed}_$ID; R=$D/repo
 export CARGO_NET_OFFLINE=true CARGO_TARGET_DIR=$D/target RUST_BACKTRACE=0
 cd $R || exit 2
 git checkout -q -- . ; git clean -fdq
